@@ -147,6 +147,8 @@ pub struct VarInt(pub u64);
 impl vstd::std_specs::cmp::PartialEqSpecImpl for VarInt { open spec fn obeys_eq_spec() -> bool { true } open spec fn eq_spec(&self, o: &VarInt) -> bool { *self == *o } }
 impl VarInt {
     pub const fn into_inner(self) -> (r: u64) ensures r == self.0 { self.0 }
+    /// the other constructors of the real type (so that code using them is decided rather than rejected)
+    pub const fn from_u32(x: u32) -> (r: Self) ensures r.0 == x as u64 { Self(x as u64) }
     /// contract boundaries, proved on the real VarInt by Kani (varint_roundtrip)
     #[verifier::external_body]
     pub fn from_u64(x: u64) -> (r: ::std::result::Result<Self, VarIntBoundsExceeded>)
